@@ -48,7 +48,9 @@ EOF
     mkdir -p "$M/glue_$cfg"
     local bytesimp=""
     [ -d "$M/gen_$cfg/factory_bytes" ] && bytesimp="_ \"exp/gen_$cfg/factory_bytes\""
-    sed -e "s/CFG/$cfg/g" -e "s#BYTESIMPORT#$bytesimp#" "$VG/glue.go.tmpl" > "$M/glue_$cfg/glue.go"
+    local tmpl="$VG/glue.go.tmpl"
+    [ "$cfg" = p0 ] && tmpl="$VG/glue_notl2.go.tmpl"
+    sed -e "s/CFG/$cfg/g" -e "s#BYTESIMPORT#$bytesimp#" "$tmpl" > "$M/glue_$cfg/glue.go"
     imports="$imports	_ \"exp/glue_$cfg\"
 "
   done
